@@ -131,6 +131,28 @@ structure PyOp where
   index : PyIdx
 deriving DecidableEq, Repr, Inhabited
 
+/-- `Operation.shift(size)` (basic_functions.py; the branch variants do not occur): a plain index and both ends of a
+`Forward`/`Backward` move by `size`; of any other pair `[level, n]` only the step `n` -/
+def opShift (o : PyOp) (size : Int) : PyOp :=
+  match o.index with
+  | .single a => { o with index := .single (a + size) }
+  | .pair a b =>
+    if o.type = "Forward" ∨ o.type = "Backward" then { o with index := .pair (a + size) (b + size) }
+    else { o with index := .pair a (b + size) }
+
+/-- `Sequence.shift(size)` on the flattened operation list (Python mutates the operations in place; the sequences the
+builders shift are freshly built, so sharing is not modelled) -/
+def seqShift (s : List PyOp) (size : Int) : List PyOp := s.map (opShift · size)
+
+/-- `Sequence.remove_useless_wm(K)`: a leading `Write_memory` (or `Write [K, ·]`) is dropped -/
+def seqRemoveUselessWm (s : List PyOp) (K : Int) : List PyOp :=
+  match s with
+  | [] => []
+  | o :: rest =>
+    if o.type = "Write_memory" ∨ o.type = "Checkpoint" then rest
+    else if o.type = "Write" ∧ (match o.index with | .pair a _ => decide (a = K) | .single _ => false) = true then rest
+    else s
+
 /-- `a, b = op.index` (`TypeError` when the index is a plain integer) -/
 def idxPair : PyIdx → M (Int × Int)
   | .pair a b => pure (a, b)
